@@ -281,9 +281,8 @@ Definition obs (s : state) : observation :=
   {| o_out := (training t, thetas s);
      o_cost := (thetas s, match meth s with PIT => map (layer_eff (disc t) (pe s)) (p_layers (pe s)) | _ => [] end);
      o_summary := match meth s with
-                  (* SuperNetCombiner.summary() re-samples (or, once it stops doing so, reads what the forward pass left):
-                     in both cases a function of the logits and the same options *)
-                  | SN => map (fun q => sn_sample (smp t) (training t) (hard t) (sn_temp t) 0 (s_alpha q)) (p_samplers (pe s))
+                  (* SuperNetCombiner.summary(): noise-free soft-max (one-hot if hard) of alpha / temperature, not stored *)
+                  | SN => map (fun q => if hard t then hard_nf (sn_temp t) (s_alpha q) else soft_nf (sn_temp t) (s_alpha q)) (p_samplers (pe s))
                   | _ => [] end;
      o_export := if p_bn (pe s) && training t then thetas s else [] |}.
 Definition observe (s : state) : pers * observation := (pe s, obs s).
